@@ -438,7 +438,21 @@ class Ctx(InterpMixin, ModelsMixin):
             return True
         if z3.is_false(cond):
             return False
-        return self._check(z3.Not(cond)) == z3.unsat
+        # the Boolean+LIA abstraction is weaker than the pc: unsat there is a sound 'entailed'
+        if self.arith.check(z3.Not(cond)) == z3.unsat:
+            return True
+        self.solver.set("timeout", 1000)
+        self._cur_budget_ms = 1000
+        try:
+            r = self._check(z3.Not(cond))
+        finally:
+            self._cur_budget_ms = self.eng.branch_timeout_ms
+            self.solver.set("timeout", self.eng.branch_timeout_ms)
+        if r == z3.unknown and self.eng.cvc5_for_branches:
+            from .solve import run_cvc5, smt2_for
+            res, _ = run_cvc5(smt2_for(self.pc, z3.Not(cond)), self.eng.cvc5_branch_timeout_s)
+            return res == "unsat"
+        return r == z3.unsat
 
     def model_value(self, term):
         """A value of `term` in some model of the pc; None when the pc is unsatisfiable.  When the
@@ -496,12 +510,22 @@ class Ctx(InterpMixin, ModelsMixin):
         ln = z3.simplify(z3.Length(v.term))
         if z3.is_int_value(ln):
             return ln.as_long()
-        mv = self.model_value(ln)
-        if mv is None:
-            raise PathEnd()
-        c = mv.as_long()
-        if self.entails(ln == c):
-            return c
+        cands = []
+        t = v.term
+        if z3.is_app(t) and t.decl().kind() == z3.Z3_OP_SEQ_EXTRACT and z3.is_int_value(z3.simplify(t.arg(2))):
+            cands.append(z3.simplify(t.arg(2)).as_long())       # s[a:a+n] most often has length n
+        if not cands:
+            try:
+                mv = self.model_value(ln)
+            except Unsupported:
+                mv = False
+            if mv is None:
+                raise PathEnd()
+            if mv is not False:
+                cands.append(mv.as_long())
+        for c in cands + [k for k in (0, 1, 2, 3, 4, 8, 12, 16, 20) if k not in cands]:
+            if self.entails(ln == c):
+                return c
         return None
 
     def fix_bytes(self, v):
